@@ -26,7 +26,7 @@ def c14(tier):
     t0 = time.time()
     pid = "C14"
     verdict = common.Verdict(pid)
-    progs, total = checks_refine.sample_programs(tier, fams=["F5a", "F5b", "F5c", "F5d", "F6"], name="c14", scale=1.5, quota={"F6": 600, "F5d": None})
+    progs, total = checks_refine.sample_programs(tier, fams=["F5a", "F5b", "F5c", "F5d", "F5f", "F6"], name="c14", scale=1.5, quota={"F6": 600, "F5d": None, "F5f": None})
     cases, bodies = [], {}
     for i, p in enumerate(progs):
         used = vocab.closure(sorted(render.calls_in(p["body"])))
@@ -376,7 +376,7 @@ def c11(tier):
                                         dict(name="deco-O0", args=["-O0"], src=dec), dict(name="plain-O0", args=["-O0"], src=src)]))
     # listing / warning options on the undecorated programs
     for s in corpus:
-        cases.append(dict(id=len(cases), src=s, _dec=s, _deco="options", _gap="",
+        cases.append(dict(id=len(cases), src=s, _dec=s, _deco="options", _gap="", cfg=dict(text=True),
                           variants=[dict(name="plain-O1", args=["-O1"], src=s), dict(name="deco-O1", args=["-O1", "--insert-code"], src=s),
                                     dict(name="deco-O0", args=["-O0", "-W", "all"], src=s), dict(name="plain-O0", args=["-O0"], src=s)]))
     obs = common.run_harness("compile", [{k: v for k, v in c.items() if not k.startswith("_")} for c in cases], "c11")
@@ -386,8 +386,18 @@ def c11(tier):
             kf[k] = fd["id"]
     same = differ_text = 0
     fallback = []
+    from . import asmcheck
     for c, ob in zip(cases, obs):
         by = {o.get("variant"): o for o in ob}
+        if c["_deco"] == "options":
+            # with the listing options on, the text handed to the assembler must still spell the generated instructions
+            for vn in ("deco-O1", "deco-O0"):
+                o = by.get(vn)
+                for f in (o.get("funcs") or []) if o and o.get("status") == "ok" else []:
+                    tm = asmcheck.text_mismatch(f) if "text_plain" in f else None
+                    if tm:
+                        verdict.violation("listing options: the written text of %s differs from the generated code: %s" % (f["name"], tm),
+                                          dict(property=pid, decoration="options", plain=c["src"], function=f["name"], detail=tm, text=f.get("text")))
         for lvl in ("O1", "O0"):
             a, b = by.get("plain-" + lvl), by.get("deco-" + lvl)
             if not a or not b or a.get("status") != "ok":
